@@ -206,6 +206,37 @@ class IntervalFlow:
     # calls of expression-bodied in-file predicates (a range check extracted
     # into `static int in_range(int i, int n) { return i >= 0 && i < n; }`)
 
+    def _single_def(self, name):
+        """defining expression of a local that is assigned exactly once (and
+        never has its address taken) in the analysed function, when that
+        expression is a boolean combination of comparisons"""
+        cache = self.__dict__.setdefault("_defs", {})
+        if name in cache:
+            return cache[name]
+        fn_ast = getattr(self, "func_ast", None)
+        out = None
+        if fn_ast is not None:
+            defs = []
+            for x in fn_ast.walk():
+                if x.kind == "VarDecl" and x.name == name and x.ch:
+                    defs.append(x.ch[-1])
+                if x.kind == "BinaryOperator" and x.op == "=" \
+                        and var(x.ch[0]) == name:
+                    defs.append(x.ch[1])
+                if x.kind == "UnaryOperator" and x.op == "&" \
+                        and var(x.ch[0]) == name:
+                    defs.append(None)
+                    defs.append(None)
+            if len(defs) == 1 and defs[0] is not None:
+                d = strip(defs[0])
+                if d.kind in ("BinaryOperator", "UnaryOperator", "CallExpr") \
+                        and getattr(d, "op", None) in (
+                            "&&", "||", "!", "<", "<=", ">", ">=", "==", "!=",
+                            None):
+                    out = d
+        cache[name] = out
+        return out
+
     def _subst(self, e, subst):
         e = strip(e)
         if subst and e is not None and e.kind == "DeclRefExpr" \
@@ -220,6 +251,11 @@ class IntervalFlow:
             return [st]
         if e.kind == "UnaryOperator" and e.op == "!":
             return self.refine_all(e.ch[0], not truth, st, subst, depth + 1)
+        if e.kind == "DeclRefExpr" and e.refkind == "VarDecl" and not subst:
+            # a flag local holding the result of a test: `int ok = a && b;`
+            d = self._single_def(e.ref)
+            if d is not None:
+                return self.refine_all(d, truth, st, subst, depth + 1)
         if e.kind == "BinaryOperator" and e.op in ("&&", "||"):
             conj = (e.op == "&&") == truth
             if conj:
@@ -362,6 +398,7 @@ def table_bounds(ctx, res):
             continue
         g = get_ccfg(ctx, facts, fname)
         fl = IntervalFlow(facts, g, tables)
+        fl.func_ast = fn
         sites = fl.run()
         by_site = {}
         for nid, st, tab, idx, ok, iv, line in sites:
@@ -390,6 +427,7 @@ TRAIT_FP_FIELDS = ("getattr", "setattr", "post_setattr", "validate",
 def _index_interval(ctx, facts, tables, fname, table, idx_text):
     g = get_ccfg(ctx, facts, fname)
     fl = IntervalFlow(facts, g, tables)
+    fl.func_ast = facts.func(fname)
     lo, hi = INF, -INF
     for nid, st, tab, idx, ok, iv, line in fl.run():
         if tab == table and idx == idx_text:
